@@ -1,6 +1,6 @@
 (* Props/C04.v -- Boundary term enforces Dirichlet / outward-normal Neumann conditions per facet. *)
 From Coq Require Import List Arith Bool ZArith QArith Qcanon Lia.
-From JV Require Import Kit.Field Kit.Expr Kit.NumRun Gen.G_boundary Model.M_operators Model.M_boundary Inst.I_boundary Proofs.P_boundary.
+From JV Require Import Kit.Field Kit.Expr Kit.NumRun Kit.Tx Gen.G_boundary Model.M_operators Model.M_boundary Inst.I_boundary Inst.I_reduce Proofs.P_boundary Proofs.P_reduce.
 Import ListNotations.
 Open Scope nat_scope.
 
@@ -42,6 +42,24 @@ Theorem C04_return_shape_independent grad_u nrm uvals lo hi y :
 Proof. split; reflexivity. Qed.
 End C04.
 
+(* ---- Regenerated reductions ----
+   boundary_condition_apply: in both branches (per-facet dictionaries and one global condition) a
+   facet contributes jnp.mean(loss_weight * per-point mismatch) = the model's facet term, a facet
+   whose condition is None is skipped, the facets are summed; the Dirichlet per-point mismatch of
+   both Dirichlet functions is the sum over the selected components of (u - f)^2. *)
+Lemma regenerated_facet_reduce_ok (F : fld) w vals :
+  tsem F [T1 vals; T0 w] g_facet_reduce_dict = Some (T0 (facet_term F w vals)) /\
+  g_facet_reduce_global = g_facet_reduce_dict /\ g_facets_wiring = true.
+Proof. split; [exact (facet_expected_sem F w vals)|split; reflexivity]. Qed.
+Lemma regenerated_dirichlet_reduce_ok (F : fld) (us fs : list (list F)) lo hi :
+  Forall (fun l => length l <> 1) fs ->
+  tsem F [T2 (map (take_slice lo hi) us); T2 fs] g_dirichlet_statio_reduce =
+    Some (T1 (map (fun p => dirichlet_point F (fst p) lo hi (FVec (snd p))) (combine us fs))) /\
+  g_dirichlet_nonstatio_reduce = g_dirichlet_statio_reduce.
+Proof. intro H. split; [exact (dirichlet_expected_sem F us fs lo hi H)|reflexivity]. Qed.
+
+Print Assumptions regenerated_facet_reduce_ok.
+Print Assumptions regenerated_dirichlet_reduce_ok.
 Print Assumptions C04_normals_are_outward.
 Print Assumptions C04_facet_order.
 Print Assumptions C04_facet_term.
